@@ -72,7 +72,10 @@ class G:
         if k == 5:
             return "{\"" + t + "\":[1,2]}"
         if k == 6:
-            return t + "\x00\x01\x1f\x7f"
+            return t + r.choice(["\x00\x01\x1f\x7f", "\x1f", "a\x1fb", "\x1e", "\x7f"])
+        if r.chance(1, 3):
+            # text that was escaped once already: a literal backslash followed by uXXXX / an escape letter
+            return t + r.choice(["\\u003c", "\\u003e b \\u0026", "\\u0041\\n", "\\\\u003c", "<\\u003c>", "\\"])
         return "  " + t + "\t"
 
     def email(self):
@@ -109,7 +112,7 @@ class G:
             t = t + "." + self.tok("F")
         if self.exotic and r.chance(1, 5):
             # keys that need escaping when printed: control characters, quote, backslash, HTML, non-ASCII, U+2028
-            t = t + r.choice(["\n", "\t", "\u0001", "\"", "\\", "\\u0041", "<&>", "é", "\u2028", "\U0001F600", " ", "\r", "\u007f", "/"])
+            t = t + r.choice(["\n", "\t", "\u0001", "\"", "\\", "\\u0041", "<&>", "é", "\u2028", "\U0001F600", " ", "\r", "\u007f", "/", "\x1f", "\x1e", "\\u003c", "\\u0026x"])
         self.fields.append(t)
         return t
 
@@ -274,7 +277,17 @@ class G:
             return Obj([("moreLikeThis", Obj([("like", udoc() if r.chance(1, 2) else [udoc(), udoc()])]))])
         if k < 4:
             op = r.choice(SEARCH_TEXT_OPS)
-            body = Obj([("query", self.sstr() if r.chance(2, 3) else [self.sstr(), self.sstr()]), ("path", self.field() if r.chance(2, 3) else [self.field(), self.field()])])
+            pk = r.below(8)
+            if pk < 5:
+                path = self.field()
+            elif pk == 5:
+                path = [self.field(), self.field()]
+            elif pk == 6:
+                # Atlas Search multi-analyzer / wildcard path specifications mixed into a path list
+                path = [self.field(), Obj([("value", self.field()), ("multi", "english")]), Obj([("wildcard", "zqwild*")])]
+            else:
+                path = Obj([("value", self.field()), ("multi", "english")])
+            body = Obj([("query", self.sstr() if r.chance(2, 3) else [self.sstr(), self.sstr()]), ("path", path)])
             if r.chance(1, 3):
                 body.set("score", Obj([("boost", Obj([("value", Num("3"))]))]))
             if op == "text" and r.chance(1, 3):
@@ -516,11 +529,19 @@ class G:
             attr.set("planSummary", "IXSCAN { %s: 1, %s: -1 }, IXSCAN { %s: 1 }" % (self.field(False), self.field(False), self.field(False)))
         elif ps == 3:
             attr.set("planSummary", "IDHACK")
+        elif ps == 4 and self.fields and r.chance(1, 2):
+            # a compound index in which one key is a proper prefix of a later key
+            f = self.field(False)
+            attr.set("planSummary", r.choice(["IXSCAN { %s: 1, %sId: 1 }", "IXSCAN { %s: 1, %s.tags: -1 }", "IXSCAN { %sx: 1, %s: 1, %s_2: -1 }"]).replace("%s", f))
         for kk, vv in [("keysExamined", Num(str(r.below(10 ** 6)))), ("docsExamined", Num("12345678901234567890")), ("nreturned", Num("0")),
                        ("queryHash", "AB12CD34"), ("reslen", Num("2.50e+3")), ("locks", Obj([("Global", Obj([("acquireCount", Obj([("r", Num("2"))]))]))])),
                        ("storage", Obj([])), ("protocol", "op_msg"), ("durationMillis", Num(str(r.below(9000))))]:
             if r.chance(2, 3):
                 attr.set(kk, vv)
+        if self.exotic and r.chance(1, 2):
+            attr.set("appName", kept_text(r))
+            if r.chance(1, 3):
+                attr.set("comment" + kept_text(r)[:6], Obj([(kept_text(r)[:8], [kept_text(r)])]))
         msg = "Slow query" if r.chance(3, 4) else "command"
         return dedupe(Obj([("t", Obj([("$date", "2024-05-0%dT12:00:0%d.123+00:00" % (1 + r.below(9), r.below(10)))])), ("s", "I"), ("c", comp), ("id", Num("51803")),
                            ("ctx", "conn%d" % r.below(9999)), ("msg", msg), ("attr", attr)]))
@@ -530,6 +551,14 @@ class G:
             v, c = self.command()
             if v != "getMore":
                 return v, c
+
+
+KEPT_TEXTS = ["app\x1fname", "a\x1e", "\x7f", "mongosh 2.1 <&> \u2028", "pre\\u003cescaped\\u003e \\u0026", "\\\\u003c", "tab\there", "q\"uote", "back\\slash", "nul\x00", "é中\U0001F600",
+              "plain", "<b>", "a&b", "\\u0041", "\\n", "\\", "\\\\", "/slash\\/", "\x1f", "x\x1fy\x1fz", "\ud7ff\ue000", "\ufffd", "\x01\x02\x03"]
+
+
+def kept_text(r):
+    return KEPT_TEXTS[r.below(len(KEPT_TEXTS))]
 
 
 def r_choice_fix(r, xs):
